@@ -1,6 +1,7 @@
 package main
 
 import (
+	"bytes"
 	"fmt"
 	"math/big"
 
@@ -861,6 +862,9 @@ func genProg(r *hx.Rand, sys bool, calm bool) []byte {
 	n := 1 + r.Intn(9)
 	for i := 0; i < n; i++ {
 		k := r.Intn(100)
+		if sys && i == 0 && r.Chance(70) { // most syscall programs start with a well-formed syscall snippet, so that one is reached
+			k = 0
+		}
 		switch {
 		case sys && k < 40:
 			g.sysOp()
@@ -1189,7 +1193,12 @@ func Gen(r *hx.Rand, tier string, i int) string {
 	case k < 45:
 		return fmt.Sprintf("X %d %s", r.Intn(8)/7, hx.Hex(genProg(r, false, tier == "quick")))
 	case k < 75:
-		return fmt.Sprintf("V %d %s", gasChoices[2+r.Intn(len(gasChoices)-2)], hx.Hex(genProg(r, true, tier == "quick")))
+		code := genProg(r, true, tier == "quick")
+		gas := gasChoices[2+r.Intn(len(gasChoices)-2)]
+		if bytes.Contains(code, []byte("Ontology.Contract.")) && r.Chance(80) { // Create / Migrate cost 2*10^7 before they run
+			gas = 30000000
+		}
+		return fmt.Sprintf("V %d %s", gas, hx.Hex(code))
 	case k < 95:
 		return genNative(r)
 	default:
